@@ -224,8 +224,15 @@ impl<'a> Rt<'a> {
     fn cancel_tasks(&mut self) {
         let (tokio, local) = init(&mut self.config);
 
+        // Drop the software and its local tasks while their runtime is still
+        // entered: destructors that read tokio's clock must see the paused,
+        // virtual clock, not the machine's (outside a runtime
+        // `tokio::time::Instant::now()` is the wall clock).
+        {
+            let _guard = self.tokio.enter();
+            drop(mem::replace(&mut self.local, local));
+        }
         _ = mem::replace(&mut self.tokio, tokio);
-        drop(mem::replace(&mut self.local, local));
     }
 }
 
